@@ -36,6 +36,8 @@ pub enum Req {
 
 pub struct EioParams {
     pub prop: &'static str,
+    /// stop generating further images / injections for a case after this many seconds
+    pub case_budget_s: u64,
     pub max_boundaries: usize,
     pub random_subsets: usize,
     pub nested: usize,
@@ -47,6 +49,7 @@ pub fn params(prop: &'static str, tier: &str) -> EioParams {
     let t = tier == "thorough";
     EioParams {
         prop,
+        case_budget_s: if t { 60 } else { 12 },
         max_boundaries: if t { 160 } else { 28 },
         random_subsets: if t { 6 } else { 2 },
         nested: if t { 6 } else { 2 },
@@ -57,7 +60,7 @@ pub fn params(prop: &'static str, tier: &str) -> EioParams {
 
 fn eio_cfg(rng: &mut Rng) -> Cfg {
     let mut c = Cfg::default_small();
-    c.buckets = *rng.pick(&[256u32, 1024, 2048]);
+    c.buckets = *rng.pick(&[96u32, 160, 256, 1024, 2048]);
     rng.fill(&mut c.bitbox_seed);
     c.commit_concurrency = *rng.pick(&[1usize, 2, 4]);
     c.io_workers = *rng.pick(&[1usize, 3]);
@@ -115,6 +118,18 @@ fn apply_op(sut: &mut Sut<K>, rep: &mut Rep, rng: &mut Rng, op: &RecOp, ctx: &st
             }
         }
     }
+}
+
+/// Keep values below `max` bytes (every image copies the value file).
+fn cap_values(mut b: Batch, max: usize) -> Batch {
+    for (_, a) in b.iter_mut() {
+        if let Access::Write(Some(v)) | Access::ReadThenWrite(Some(v)) = a {
+            if v.len() > max {
+                v.truncate(max - (v.len() % 977));
+            }
+        }
+    }
+    b
 }
 
 fn op_descr(op: &RecOp) -> String {
@@ -509,8 +524,17 @@ pub struct Recorded {
 }
 
 /// One E-IO case for property `prop`.
+thread_local! {
+    static CASE_START: std::cell::Cell<Option<std::time::Instant>> = std::cell::Cell::new(None);
+}
+
+fn over_budget(p: &EioParams) -> bool {
+    CASE_START.with(|c| c.get().map_or(false, |t| t.elapsed().as_secs() >= p.case_budget_s))
+}
+
 pub fn run_case(prop: &'static str, tier: &str, seed: u64, scratch: &Path, rep: &mut Rep) {
     let p = params(prop, tier);
+    CASE_START.with(|c| c.set(Some(std::time::Instant::now())));
     let mut rng = Rng::new(derive(seed, &[11]));
     let cfg = eio_cfg(&mut rng);
     let live = scratch.join("live");
@@ -540,10 +564,30 @@ pub fn run_case(prop: &'static str, tier: &str, seed: u64, scratch: &Path, rep: 
     for i in 0..rng.range(1, 5) {
         let sz = rng.range(5, 120) as usize;
         let b = mk_batch(&mut rng, &sut, sz, if i == 0 { ValProfile::Boundary } else { ValProfile::Small });
+        let b = cap_values(b, 70_000);
         let via = rng.below(3);
         let op = RecOp::Commit { batch: b, via };
         if apply_op(&mut sut, rep, &mut rng, &op, "warm-up").is_err() {
             return;
+        }
+    }
+    if rng.chance(1, 2) {
+        // churn: delete most keys and insert others, so that buckets get tombstoned and reused
+        for _ in 0..rng.range(1, 3) {
+            let mut b: Batch = Vec::new();
+            for k in sut.model.kv.keys() {
+                if rng.chance(3, 4) {
+                    b.push((*k, Access::Write(None)));
+                }
+            }
+            if !b.is_empty() && apply_op(&mut sut, rep, &mut rng, &RecOp::Commit { batch: b, via: 0 }, "churn-delete").is_err() {
+                return;
+            }
+            let sz = rng.range(20, 150) as usize;
+            let b = cap_values(mk_batch(&mut rng, &sut, sz, ValProfile::Small), 70_000);
+            if apply_op(&mut sut, rep, &mut rng, &RecOp::Commit { batch: b, via: 0 }, "churn-insert").is_err() {
+                return;
+            }
         }
     }
     let n_rec = rng.range(2, 4);
@@ -559,7 +603,7 @@ pub fn run_case(prop: &'static str, tier: &str, seed: u64, scratch: &Path, rep: 
             let size = *rng.pick(&[1usize, 4, 20, 60, 150]);
             let val = if rng.chance(1, 3) { ValProfile::Boundary } else { ValProfile::Small };
             RecOp::Commit {
-                batch: mk_batch(&mut rng, &sut, size, val),
+                batch: cap_values(mk_batch(&mut rng, &sut, size, val), 70_000),
                 via: rng.below(3),
             }
         };
@@ -648,6 +692,10 @@ fn images(rep: &mut Rep, rng: &mut Rng, p: &EioParams, cfg: &Cfg, r: &Recorded, 
         if rep.diverged {
             return;
         }
+        if over_budget(p) {
+            rep.feat("cases_cut_by_time_budget", 1);
+            break;
+        }
         let f = fold(&r.events, k);
         let mut policies: Vec<Policy> = Vec::new();
         if process_crash {
@@ -713,6 +761,27 @@ fn images(rep: &mut Rep, rng: &mut Rng, p: &EioParams, cfg: &Cfg, r: &Recorded, 
             let ctx = format!("{ctx0} crash at log position {k}/{n} (meta write at {meta_pre}..{meta_post}) policy {pol:?}");
             check_image(rep, rng, prop, &img, cfg, &r.pre, &r.post, req, &r.keys, &ctx, true);
             rep.feat("images_checked", 1);
+            if rep.diverged && std::env::var("NV_DEBUG_HT").is_ok() {
+                // compare the recovered hash table with the live one (true post-state)
+                let live = scratch.join("live");
+                if let (Ok(a), Ok(b)) = (std::fs::read(img.join("ht")), std::fs::read(live.join("ht"))) {
+                    let mut lines = Vec::new();
+                    for pg in 0..a.len().min(b.len()) / 4096 {
+                        let (pa, pb) = (&a[pg * 4096..pg * 4096 + 4096], &b[pg * 4096..pg * 4096 + 4096]);
+                        if pa != pb {
+                            let nodes: Vec<usize> = (0..126).filter(|i| pa[i * 32..i * 32 + 32] != pb[i * 32..i * 32 + 32]).collect();
+                            let zero_in_live: Vec<usize> = nodes.iter().copied().filter(|i| pb[i * 32..i * 32 + 32] == [0u8; 32]).collect();
+                            lines.push(format!(
+                                "ht page {pg}: {} nodes differ {:?} (of which zero in live: {:?}); elided img {:02x?} live {:02x?}; label equal {}",
+                                nodes.len(), &nodes[..nodes.len().min(12)], &zero_in_live[..zero_in_live.len().min(12)],
+                                &pa[4056..4064], &pb[4056..4064], pa[4064..] == pb[4064..]
+                            ));
+                        }
+                    }
+                    rep.fail(prop, "debug-ht", format!("HT-DEBUG {}", lines.join(" || ")));
+                    eprintln!("HT-DEBUG {ctx}: {}", lines.join(" || "));
+                }
+            }
             // nested crash: crash again inside the recovery of this image
             if process_crash && nested_left > 0 && !rep.diverged && k > meta_pre && rng.chance(1, 3) {
                 nested_left -= 1;
@@ -997,6 +1066,10 @@ fn injections(rep: &mut Rep, rng: &mut Rng, p: &EioParams, cfg: &Cfg, r: &Record
         if rep.diverged {
             return;
         }
+        if over_budget(p) {
+            rep.feat("cases_cut_by_time_budget", 1);
+            break;
+        }
         let persistent = rng.chance(1, 3);
         let work = scratch.join("inj");
         if shadow::copy_dir(&r.base, &work).is_err() {
@@ -1006,8 +1079,8 @@ fn injections(rep: &mut Rep, rng: &mut Rng, p: &EioParams, cfg: &Cfg, r: &Record
         nomt::verif::set_seg_size_override(cfg.seg_size);
         let db = match guard(|| Db::<K>::open(cfg.options(&work))) {
             Ok(Ok(db)) => db,
-            _ => {
-                rep.inconclusive.push(format!("{ctx0}: cannot open the base copy"));
+            other => {
+                rep.inconclusive.push(format!("{ctx0}: cannot open the base copy: {:?}", other.map(|r| r.map(|_| ()).map_err(|e| format!("{e:#}")))));
                 continue;
             }
         };
